@@ -368,34 +368,31 @@ pub fn reclaim_verdicts(before: &SimFs, after: &SimFs, trace: &[Rec], roots: &[D
             if !td.ends_with("/.kismet_temp") {
                 continue;
             }
-            let first = trace.iter().position(|r| r.kind == K::Opendir && r.path == td && r.err == 0);
-            let last = trace.iter().rposition(|r| r.kind == K::Opendir && r.path == td && r.err == 0);
-            let (lo, hi) = match (first, last) {
-                (Some(f), Some(l)) => (if f > 0 { trace[f - 1].now } else { before.now }, trace[l].now),
-                _ => continue,
-            };
+            if !trace.iter().any(|r| r.kind == K::Opendir && r.path == td && r.err == 0) {
+                continue;
+            }
+            // robust to where the implementation reads the clock: a file may be
+            // unlinked only if it is older than the limit at its own unlink, and
+            // must be gone if it was already stale at the `before` snapshot
+            let unlink = trace.iter().find(|r| r.kind == K::Unlink && r.path == p && r.err == 0);
             let still = after.stat(&p);
-            if hi - st.mtime < HOUR {
-                match still {
-                    Ok(s2) if s2.ino == st.ino && s2.mtime == st.mtime && s2.mode == st.mode && after.read_path(&p).as_deref() == data.as_ref().map(|d| d.as_slice()) => {
-                        *verdicts.entry("young_kept").or_insert(0) += 1;
-                    }
-                    // a temp file that is still linked to a published entry
-                    // (crash between link and unlink) shares its inode times
-                    Ok(s2) if s2.ino == st.ino && s2.nlink > 1 => {}
-                    Ok(_) => out.push(("young-temp-altered", format!("{} is younger than the limit but was altered", p))),
-                    Err(_) => {
-                        // the owner may legitimately remove its own temp file
-                        if !trace.iter().any(|r| r.kind == K::Unlink && r.path == p && r.err == 0 && r.proc == 0) {
-                            out.push(("young-temp-deleted", format!("{} (age {} ns at the last clean-up) was deleted by maintenance", p, hi - st.mtime)));
-                        }
+            match (still, unlink) {
+                (Err(_), Some(u)) => {
+                    if u.now - st.mtime <= HOUR && u.proc != 0 {
+                        out.push(("young-temp-deleted", format!("{} (age {} ns when unlinked) was deleted by maintenance", p, u.now - st.mtime)));
+                    } else {
+                        *verdicts.entry("stale_removed").or_insert(0) += 1;
                     }
                 }
-            } else if lo - st.mtime > HOUR {
-                if still.map(|s2| s2.ino == st.ino).unwrap_or(false) {
-                    out.push(("stale-temp-kept", format!("{} (age {} ns at the first clean-up) survived maintenance of its directory", p, lo - st.mtime)));
-                } else {
-                    *verdicts.entry("stale_removed").or_insert(0) += 1;
+                (Err(_), None) => {}
+                (Ok(s2), _) => {
+                    if before.now - st.mtime > HOUR && s2.ino == st.ino {
+                        out.push(("stale-temp-kept", format!("{} (age {} ns before the maintenance round) survived maintenance of its directory", p, before.now - st.mtime)));
+                    } else if s2.ino == st.ino && s2.nlink <= 1 && (s2.mtime != st.mtime || s2.mode != st.mode || after.read_path(&p).as_deref() != data.as_ref().map(|d| d.as_slice())) {
+                        out.push(("young-temp-altered", format!("{} is not older than the limit but was altered", p)));
+                    } else {
+                        *verdicts.entry("young_kept").or_insert(0) += 1;
+                    }
                 }
             }
         }
